@@ -118,6 +118,11 @@ def run(tier, seed):
     for i in range(n):
         is_reg = i % 3 != 0
         a = optsim.gen_reg_args(rng) if is_reg else optsim.gen_auth_args(rng)
+        if i % 5 == 1:
+            # descriptors that share an id (here and with earlier calls) but list their transports in another order / with repeats
+            same = [{"id": b"shared-credential-id", "transports": t} for t in (["usb", "nfc"], ["nfc", "usb"], ["ble"], ["ble", "ble"], ["hybrid", "internal", "hybrid"], None, [])]
+            rng.shuffle(same)
+            a["exclude" if is_reg else "allow"] = same[: rng.randrange(2, len(same) + 1)]
         o = webauthn.generate_registration_options(**optsim.reg_kwargs(a)) if is_reg else webauthn.generate_authentication_options(**optsim.auth_kwargs(a))
         text = options_to_json(o)
         j = json.loads(text)
@@ -163,7 +168,7 @@ def run(tier, seed):
         if i < 2:
             chk.sample({"json": text[:300]})
         # refusals: required scalar members deleted / of the wrong JSON type; unknown enum values
-        if i % (3 if quick else 1) == 0:
+        if not quick or i % 2 == 0:
             req = ([("rp",), ("rp", "name"), ("user",), ("user", "id"), ("user", "name"), ("user", "displayName"), ("challenge",), ("attestation",), ("pubKeyCredParams",)]
                    if is_reg else [("challenge",), ("userVerification",)])
             for path in req:
